@@ -8,12 +8,11 @@
                          well-formed schema terminates and returns a closed, well-formed schema;
   * `visitors_closed`    FULL: the same for any list of visitors applied one after the other (what `transform_schema`
                          does after cloning);
-  * `transform_closed_partial`: `transform_schema` from a closed source is closed PROVIDED the clone it starts from is
-                         closed and well-formed (`CloneClosedWF`, the statement that is still open — it needs the copies'
-                         shapes and the distinctness of the clone's registry names; tied by the correspondence and by
-                         `clone_closed_witness_fixed`).
+  * `clone_closed`       FULL: `Schema.clone()` of a closed well-formed schema is closed and well-formed;
+  * `transform_closed`   FULL: `transform_schema(source, *visitors)` of a closed well-formed source is closed and well-formed.
 -/
 import PyGqlModel.Lemmas.HeapFuel
+import PyGqlModel.Lemmas.HeapCloneClosed
 import PyGqlModel.Lemmas.HeapExtMembers
 import PyGqlModel.Props.C14_frames
 
@@ -90,24 +89,63 @@ theorem visitors_closed (cfg : Cfg) (hacc : cfg.accumulateBusted = true) (fuel :
     obtain ⟨h2, s2, e2, c2, w2⟩ := ih s1 h1 c1 w1
     exact ⟨h2, s2, by simp only [transformFrom, e1]; exact e2, c2, w2⟩
 
-/-- the statement still OPEN: the clone of a closed, well-formed schema is closed and well-formed -/
+/-- the statement: the clone of a closed, well-formed schema is closed and well-formed -/
 def CloneClosedWF (cfg : Cfg) : Prop :=
   ∀ fuel s h h' s', closedB h s = true → wfB h s = true → clone cfg fuel s h = some (h', s') → closedB h' s' = true ∧ wfB h' s' = true
 
-/-- PARTIAL `transform_closed`: given `CloneClosedWF`, `transform_schema(source, *visitors)` of a closed well-formed
-    source is closed and well-formed (every step after the clone is proved: `visitors_closed`) -/
-theorem transform_closed_partial (cfg : Cfg) (hacc : cfg.accumulateBusted = true) (hclone : CloneClosedWF cfg) (fuel : Nat)
-    (vs : List Visitor) (s : Schema) (h h' : Heap) (s' : Schema) (hc : closedB h s = true) (hw : wfB h s = true)
+/-- FULL `clone_closed`: for the variant /repo has (members copied, all types kept, accumulated flag), `Schema.clone()` of
+    a closed well-formed schema is closed and well-formed — for every heap and schema, whatever is reachable or not -/
+theorem clone_closed (cfg : Cfg) (hd : cfg.deepClone = true) (hk : cfg.keepAllTypes = true) (hacc : cfg.accumulateBusted = true) :
+    CloneClosedWF cfg := by
+  intro fuel s h h' s' hc hw e
+  obtain ⟨c, w⟩ := clone_closed_wfs cfg hd hk hacc fuel s h h' s' hc (wfs_of_closedB hc hw) e
+  exact ⟨c, wfB_of_wfs w⟩
+
+/-- … and it exists as soon as there is fuel for two rounds -/
+theorem clone_total (cfg : Cfg) (hd : cfg.deepClone = true) (s : Schema) (h : Heap) (hc : closedB h s = true) (hw : wfB h s = true)
+    (fuel : Nat) : (clone cfg (2 + fuel) s h).isSome = true := by
+  have w0 := clone_start_wfs cfg hd s h hc (wfs_of_closedB hc hw)
+  have h2 := healLoop_two cfg _ _ w0
+  have hex : ∃ r, replaceTD cfg (2 + fuel) { types := cloneRegistry cfg s h, dirs := [], query := s.query, mutation := s.mutation, subscription := s.subscription, dres := none } (cloneDirs cfg (cloneTypes cfg h s.types).1 s.dirs).1 (cloneTypes cfg h s.types).2 (cloneDirs cfg (cloneTypes cfg h s.types).1 s.dirs).2 = some r := by
+    simp only [replaceTD]
+    split
+    · obtain ⟨r, e2⟩ := Option.isSome_iff_exists.mp h2
+      exact ⟨r, healLoop_fuel_ge cfg 2 _ _ r e2 fuel⟩
+    · exact ⟨_, rfl⟩
+  obtain ⟨r, hr⟩ := hex
+  simp only [clone, hr]
+  rfl
+
+/-- FULL `transform_closed`: `transform_schema(source, *visitors)` of a closed well-formed source — clone, then any list of
+    heal / visibility / camel-case / drop-wrap visitors with arbitrary predicates and renamings — is closed and well-formed -/
+theorem transform_closed (cfg : Cfg) (hd : cfg.deepClone = true) (hk : cfg.keepAllTypes = true) (hacc : cfg.accumulateBusted = true)
+    (fuel : Nat) (vs : List Visitor) (s : Schema) (h h' : Heap) (s' : Schema) (hc : closedB h s = true) (hw : wfB h s = true)
     (e : transform cfg (2 + fuel) vs s h = some (h', s')) : closedB h' s' = true ∧ wfB h' s' = true := by
   simp only [transform] at e
   split at e
   · cases e
   · rename_i r hr
     obtain ⟨h1, s1⟩ := r
-    obtain ⟨c1, w1⟩ := hclone (2 + fuel) s h h1 s1 hc hw hr
+    obtain ⟨c1, w1⟩ := clone_closed cfg hd hk hacc (2 + fuel) s h h1 s1 hc hw hr
     obtain ⟨h2, s2, e2, c2, w2⟩ := visitors_closed cfg hacc fuel vs s1 h1 c1 w1
     rw [e2] at e; cases e
     exact ⟨c2, w2⟩
+
+/-- FULL, with termination: fuel for two rounds is always enough for `transform_schema` on a closed well-formed source -/
+theorem transform_closed_total (cfg : Cfg) (hd : cfg.deepClone = true) (hk : cfg.keepAllTypes = true) (hacc : cfg.accumulateBusted = true)
+    (vs : List Visitor) (s : Schema) (h : Heap) (hc : closedB h s = true) (hw : wfB h s = true) (fuel : Nat) :
+    ∃ h' s', transform cfg (2 + fuel) vs s h = some (h', s') ∧ closedB h' s' = true ∧ wfB h' s' = true := by
+  obtain ⟨⟨h1, s1⟩, e1⟩ := Option.isSome_iff_exists.mp (clone_total cfg hd s h hc hw fuel)
+  obtain ⟨c1, w1⟩ := clone_closed cfg hd hk hacc (2 + fuel) s h h1 s1 hc hw e1
+  obtain ⟨h2, s2, e2, c2, w2⟩ := visitors_closed cfg hacc fuel vs s1 h1 c1 w1
+  exact ⟨h2, s2, by simp only [transform, e1]; exact e2, c2, w2⟩
+
+/-- the working tree's variant -/
+theorem current_transform_closed (hd : PyGql.Generated.HeapCfg.currentCfg.deepClone = true)
+    (hk : PyGql.Generated.HeapCfg.currentCfg.keepAllTypes = true) (hacc : PyGql.Generated.HeapCfg.currentCfg.accumulateBusted = true)
+    (vs : List Visitor) (s : Schema) (h h' : Heap) (s' : Schema) (hc : closedB h s = true) (hw : wfB h s = true)
+    (e : transform PyGql.Generated.HeapCfg.currentCfg 2 vs s h = some (h', s')) : closedB h' s' = true :=
+  (transform_closed _ hd hk hacc 0 vs s h h' s' hc hw e).1
 
 /-- the clone of the witness is closed and well-formed (instance of `CloneClosedWF` for the fixed variant) -/
 theorem clone_closed_wf_witness_fixed :
@@ -142,6 +180,22 @@ theorem untouched_preserved_extend_args_partial (k : Bool) (N : List (String × 
     ∀ c, c ∈ (extendArgs k N h as).2 → ∃ a g g', a ∈ as ∧ h.readArg a = some g ∧
       (extendArgs k N h as).1.readArg c = some g' ∧ ArgKept k N g g' :=
   extendArgs_kept k N as h h (FrameX.refl _ h) hlt
+
+/-- FRAME PART at member level (full, for all heaps / schemas / extension documents): whatever `extend_schema` still does after
+    some point (`extendRest`: the remaining registered types `l`, the new types, all directives) writes placeholder addresses
+    only — every object allocated after the placeholders, i.e. every rebuilt field, argument and input field, reads the same
+    at the end of `extend_schema` (`extend_heap_eq`: `extend` = placeholders + `extendRest` over all registered types).
+    Together with `untouched_preserved_extend_members_partial` (attributes at the rebuild) this is the member level of
+    `untouched_preserved` for extension; the two halves are not yet composed into one statement about `extend`. -/
+theorem untouched_preserved_extend_members_frame (cfg : Cfg) (ext : Ext) (s : Schema) (h : Heap) (N Nin : List (String × Addr))
+    (l : List (String × Addr)) (hl : (l.map (·.1)).Nodup) (hmid : Heap)
+    (hsz : (allocPlaceholders h ((s.types.filter fun e => !isProtected e.1).map (·.1) ++ ext.newTypes.map (·.1))).1.size ≤ hmid.size)
+    (c : Addr) (hc1 : (allocPlaceholders h ((s.types.filter fun e => !isProtected e.1).map (·.1) ++ ext.newTypes.map (·.1))).1.size ≤ c)
+    (hc2 : c < hmid.size) :
+    (extendRest cfg ext N Nin (allocPlaceholders h ((s.types.filter fun e => !isProtected e.1).map (·.1) ++ ext.newTypes.map (·.1))).2
+      h s l hmid).read c = hmid.read c :=
+  extendRest_read cfg ext N Nin _ h s _
+    (fun n x hx => (allocPlaceholders_lookup _ h n x hx).2) (allocPlaceholders_inj _ h) l hl hmid hsz c hc1 hc2
 
 /-- with the fixes (`Cfg.fixed`) the kept attributes are plain equalities -/
 theorem fieldKept_fixed (N : List (String × Addr)) (f f' : FieldO) (k : FieldKept Cfg.fixed N f f') :
